@@ -12,6 +12,8 @@
 
 #include <unordered_map>
 
+#include <atomic>
+
 #ifndef CHAISCRIPT_NO_THREADS
 #include <mutex>
 #include <shared_mutex>
@@ -58,29 +60,41 @@ namespace chaiscript::detail::threading {
   template<typename T>
   class Thread_Storage {
   public:
-    Thread_Storage() = default;
+    Thread_Storage()
+        : m_id(next_id()) {
+    }
     Thread_Storage(const Thread_Storage &) = delete;
     Thread_Storage(Thread_Storage &&) = delete;
     Thread_Storage &operator=(const Thread_Storage &) = delete;
     Thread_Storage &operator=(Thread_Storage &&) = delete;
 
-    ~Thread_Storage() { t().erase(this); }
+    ~Thread_Storage() { t().erase(m_id); }
 
-    inline const T *operator->() const noexcept { return &(t()[this]); }
+    inline const T *operator->() const noexcept { return &(t()[m_id]); }
 
-    inline const T &operator*() const noexcept { return t()[this]; }
+    inline const T &operator*() const noexcept { return t()[m_id]; }
 
-    inline T *operator->() noexcept { return &(t()[this]); }
+    inline T *operator->() noexcept { return &(t()[m_id]); }
 
-    inline T &operator*() noexcept { return t()[this]; }
+    inline T &operator*() noexcept { return t()[m_id]; }
 
     void *m_key;
 
   private:
+    /// Entries are keyed by an id that is never reused. Keying by `this` let an object created at
+    /// the address of a destroyed one see the entries that other, still running threads kept for
+    /// the old object (only the destroying thread's entry is erased).
+    static std::size_t next_id() noexcept {
+      static std::atomic<std::size_t> counter{0};
+      return ++counter;
+    }
+
+    const std::size_t m_id;
+
     /// todo: is it valid to make this noexcept? The allocation could fail, but if it
     /// does there is no possible way to recover
-    static std::unordered_map<const void *, T> &t() noexcept {
-      static thread_local std::unordered_map<const void *, T> my_t;
+    static std::unordered_map<std::size_t, T> &t() noexcept {
+      static thread_local std::unordered_map<std::size_t, T> my_t;
       return my_t;
     }
   };
